@@ -1263,6 +1263,22 @@ def monitor_c17(sched, res):
     crash oracles: liveness probes planted by the script must be answered."""
     bad = []
     T = Trace(sched, res)
+    # Done is signalled in the very burst in which the router says GOODBYE /
+    # ABORT or the transport ends
+    done_b = None
+    for ob in T.obs:
+        if ob["e"] == "done":
+            done_b = ob["b"]
+            break
+    for bi, b in enumerate(sched["bursts"]):
+        ends = [l for l in b["labels"] if l["k"] == "end" or (l["k"] == "msg" and l["m"]["t"] in ("goodbye", "abort"))]
+        if ends and (done_b is None or done_b > bi):
+            what = ends[0]["k"] if ends[0]["k"] == "end" else ends[0]["m"]["t"].upper()
+            bad.append(("C17 Done not signalled on " + what, "burst %d: the router said %s, Done() was %s" % (
+                bi, what, "never closed" if done_b is None else "closed only in burst %d" % done_b)))
+            break
+        if ends:
+            break
     for probe in sched.get("probes", []):
         kind = probe["k"]
         if kind == "event":
